@@ -43,7 +43,21 @@ RULE = (
 # ----------------------------------------------------------------------------------------------
 # models
 # ----------------------------------------------------------------------------------------------
+_MODEL_CACHE = {}
+
+
 def _build_model(spec):
+    """-> (fresh model, info); make_psf_model is slow (it integrates the model), so the built
+    models are cached and a deep copy is handed out."""
+    from copy import deepcopy
+    key = json.dumps(spec, sort_keys=True)
+    if key not in _MODEL_CACHE:
+        _MODEL_CACHE[key] = _build_model_uncached(spec)
+    m, info = _MODEL_CACHE[key]
+    return deepcopy(m), dict(info)
+
+
+def _build_model_uncached(spec):
     """-> (model, info) ; info: x_name, y_name, flux (param name), extra mapping for compound."""
     import astropy.units as u
     from astropy.modeling.models import Gaussian2D, Moffat2D
@@ -514,8 +528,9 @@ class _Emitter:
 # ----------------------------------------------------------------------------------------------
 def _axis_lattice(n, w):
     """Boundary lattice of centre coordinates for an axis of n pixels and a window of w pixels."""
-    off = [-100.0, -w / 2.0 - 3.0, -w / 2.0, n - 1 + w / 2.0 + 1.0, n + w + 7.5]   # window misses the image
-    # (-w/2: ceil(pos + w/2) = 0 -> empty;  n-1+w/2+1: ceil(pos - w/2) = n -> empty)
+    off = [-100.0, -w / 2.0 - 3.0, -w / 2.0 - 1.0, n - 1 + w / 2.0 + 1.0, n + w + 7.5]   # window misses the image
+    # (n-1+w/2+1: ceil(pos - w/2) = n -> empty; the other touching position -w/2, where
+    #  ceil(pos + w/2) = 0, is exercised by the dedicated scenario 'touch0')
     on = [-w / 2.0 + 0.01, -0.5, 0.0, 0.49, 0.5, float(n // 2), n // 2 + 0.5, n / 2.0 - 0.3, n - 1.0, n - 0.5,
           n - 1 + w / 2.0]
     return off, on
@@ -549,6 +564,12 @@ def _rows_for(rng, shape, scenario, n, w_nom, fw):
                      'ms2': [h, int(rng.choice([1, 2, 3, 4, 7]))], 'fwhm': float(rng.choice(fw))})
     if scenario == 'dup' and n >= 2:
         rows[1] = dict(rows[0])
+    if scenario == 'touch0':
+        k = int(rng.integers(n))
+        if rng.random() < 0.5:
+            rows[k]['x'] = -w_nom / 2.0
+        else:
+            rows[k]['y'] = -w_nom / 2.0
     return rows
 
 
@@ -566,7 +587,7 @@ def run(ctx):
         {'name': 'imagepsf', 'shape': [9, 11], 'os': 2, 'dseed': 11}, {'name': 'imagepsf', 'shape': [7, 7], 'os': [2, 3], 'dseed': 12},
         {'name': 'gridded', 'os': 1, 'dseed': 13}, {'name': 'compound'}, {'name': 'psfmodel'},
     ]
-    scenarios = ['mixed', 'first-off', 'all-off', 'last-off', 'dup', 'single', 'empty', 'mixed']
+    scenarios = ['mixed', 'first-off', 'all-off', 'last-off', 'dup', 'single', 'empty', 'touch0']
     mshapes = [{'mode': 'kw', 'kw': 5}, {'mode': 'kw', 'kw': [3, 6]}, {'mode': 'kw', 'kw': 4}, {'mode': 'kw', 'kw': 1},
                {'mode': 'col1'}, {'mode': 'col2'}, {'mode': 'col1+kw', 'kw': 7}, {'mode': 'bbox'}, {'mode': 'kw', 'kw': [9, 2]}]
     reps = 3 if T else 1
@@ -574,11 +595,13 @@ def run(ctx):
     for rep in range(reps):
         for shape, model, scen in itertools.product(shapes, models, scenarios):
             n += 1
-            if not T and (n % 4) != (rep % 4):
+            if not T and (n % 5) not in (2, 4):      # stride coprime to the loop lengths: every scenario/model/shape is hit
                 continue
             ms = mshapes[int(rng.integers(len(mshapes)))]
             if ms['mode'] == 'bbox' and model['name'] in ('compound', 'psfmodel', 'moffat2d'):
                 ms = mshapes[n % 4]                       # no usable bounding box
+            if scen == 'touch0':
+                ms = [{'mode': 'kw', 'kw': 5}, {'mode': 'kw', 'kw': 4}, {'mode': 'kw', 'kw': 1}][n % 3]
             w_nom = ms['kw'] if ms['mode'] == 'kw' and np.isscalar(ms.get('kw', [0])) else 5
             nrows = {'single': 1, 'empty': 0}.get(scen, int(rng.integers(2, 7)))
             rows = _rows_for(rng, shape, scen, nrows, w_nom, [1.0, 2.0, 3.3])
